@@ -709,7 +709,7 @@ def rule_bdd34(prog, found):
                         PROP, 'R-BDD-3', f.where(), f.short(),
                         'foreign-variable-exception', 'a variable outside '
                         'the ordering raises %s, not RuntimeError' % (
-                            c.name if c else v.exc)))
+                            c.name if c else v.exc)), witness=v)
             continue
         r3.inst(path='returns %r' % (v,), checked_membership=bool(member))
         if member and member[0]:
